@@ -17,7 +17,7 @@ def one(job):
         b = subprocess.run(["patch", "-p1", "-s", "-F0", "--no-backup-if-mismatch", "-i", os.path.join(HERE, "seeded", sid, "patch.diff")], cwd=tmp, capture_output=True, text=True)
         if b.returncode != 0:
             return r, sid, None
-        target = sid[3:6] if sid.startswith("r2-") else sid[:3]
+        target = __import__("re").search(r"C\d\d", sid).group(0)
         c = subprocess.run([os.path.join(HERE, "check"), target, "--no-evidence"], env=dict(os.environ, VERIF_REPO=tmp), capture_output=True, text=True)
         return r, sid, {0: "MISSED", 1: "hit", 2: "ANALYSIS-ERROR"}.get(c.returncode, str(c.returncode))
     finally:
